@@ -406,6 +406,8 @@ SPECS, HEADER = SPECS + SPECS_MET, HEADER + HEADER_MET
 
 from .srcspecs_gcsa import SPECS_GCSA  # noqa: E402  (third extension, tag gcsa: calgebra/gcsa.py)
 SPECS += SPECS_GCSA
+from .srcspecs_filt import SPECS_FILT, HEADER_FILT  # noqa: E402  (tag filt: properties.py, Filter classes, dispatch)
+SPECS += SPECS_FILT; HEADER += HEADER_FILT  # noqa: E702
 
 
 def regenerate(repo: Path, coq_dir: Path):
